@@ -464,3 +464,32 @@ def check_convergence(R, sh: SolverShape) -> None:
             f'difference `{text(cur_expr)}`: operand roles are {a}:{ra or "?"}, {b}:{rb or "?"} '
             f'(expected one re-read after the evaluation call and one copy of it saved before the call)',
             where=sh.where(conv))
+
+
+def value_roles(sh: SolverShape) -> Tuple[str, str]:
+    """(current, previous): `current` is the name re-read from the check
+    values inside the loop after the evaluation call; `previous` the name that
+    receives a copy of it inside the loop before the evaluation call."""
+    cur = prev = None
+    for n in sh.cfg.nodes:
+        a = n.ast
+        if n.kind != 'stmt' or not isinstance(a, ast.Assign) or len(a.targets) != 1 or not isinstance(a.targets[0], ast.Name):
+            continue
+        if not sh.in_loop(n) or n.loops[-1] != sh.loop.id:
+            continue
+        v = a.value
+        if isinstance(v, ast.Call) and dotted(v.func) == 'get_check_values' and sh.n_eval.id in sh.dom[n.id]:
+            cur = a.targets[0].id
+    if cur is None:
+        raise AnchorMissing(f'{sh.q}: no re-read of the check values after the evaluation call')
+    for n in sh.cfg.nodes:
+        a = n.ast
+        if n.kind != 'stmt' or not isinstance(a, ast.Assign) or len(a.targets) != 1 or not isinstance(a.targets[0], ast.Name):
+            continue
+        if not sh.in_loop(n):
+            continue
+        if _copy_src(a.value) == cur and n.id in sh.dom[sh.n_eval.id]:
+            prev = a.targets[0].id
+    if prev is None:
+        raise AnchorMissing(f'{sh.q}: no copy of `{cur}` saved before the evaluation call')
+    return cur, prev
